@@ -263,6 +263,7 @@ static void drv_reset(void)
 		__sanitizer_install_malloc_and_free_hooks(hook_malloc, hook_free);
 		hooks_installed = 1;
 	}
+	alarm(10);      /* watchdog per behaviour (drv.h arms 20 s; the largest input parses in well under a second) */
 	root = init;
 	clear_events();
 	refuse_at = -1;
